@@ -35,6 +35,9 @@ type Case struct {
 	// OtherSections: the configuration file also holds sections of other handlers, some named like the regular
 	// handler up to letter case or a suffix, with another validity and other slots
 	OtherSections bool `json:",omitempty"`
+	// Scribble: the signer edits every request object it is handed (extensions, principals, validity, KeyId):
+	// the next request is built afresh all the same
+	Scribble bool `json:",omitempty"`
 	KeyIDs       map[string]string
 	UserKey      string
 	Via          string
@@ -138,6 +141,7 @@ func gen(t *rapid.T) Case {
 	}
 	c.OmitValidity = rapid.IntRange(0, 9).Draw(t, "omitValidity") == 0
 	c.OtherSections = rapid.IntRange(0, 2).Draw(t, "otherSections") == 1
+	c.Scribble = rapid.IntRange(0, 2).Draw(t, "scribble") == 1
 	c.KeyIDs = map[string]string{}
 	algos := []int{0, 1, 2, 3, 4, 5, 7, 100}
 	n := rapid.IntRange(0, 4).Draw(t, "nIDs")
@@ -272,7 +276,7 @@ func exec(c Case) (vh.Outcome, error) {
 				// (a complete earlier run for the judged login first: authentication and generation)
 				if prevRun, pe2 := vh.BuildParam(vh.ParamSpec{LogName: c.LogName, Policy: "NONS", ReqUser: c.LogName, ReqHost: "earlier-host", ClientIP: c.IP, TransID: "0000000002", CAAlgo: c.PrevAlgo, Via: "direct"}); pe2 == nil {
 					_ = vh.Catch(func() {
-						_ = gensign.Run(context.Background(), prevRun, []gensign.Handler{h}, &vh.FakeCA{Default: vh.CABehaviour{NCerts: 1}})
+						_ = gensign.Run(context.Background(), prevRun, []gensign.Handler{h}, &vh.FakeCA{Default: vh.CABehaviour{NCerts: 1}, Scribble: c.Scribble})
 					})
 				}
 				_ = vh.Catch(func() {
@@ -287,7 +291,7 @@ func exec(c Case) (vh.Outcome, error) {
 				})
 			}
 		}
-		ca := &vh.FakeCA{Default: vh.CABehaviour{NCerts: 1}}
+		ca := &vh.FakeCA{Default: vh.CABehaviour{NCerts: 1}, Scribble: c.Scribble}
 		addsBefore := len(p.Adds())
 		var runErr error
 		cerr := vh.Catch(func() { runErr = gensign.Run(context.Background(), param, []gensign.Handler{h}, ca) })
@@ -376,7 +380,7 @@ func exec(c Case) (vh.Outcome, error) {
 	return out, nil
 }
 
-const rule = "login name, client-declared user and host, transaction id with JSON metacharacters (quotes, backslash, an injection attempt, U+2028), non-ASCII, spaces, and long values of 61..5000 bytes around 64 / 128 / 256 / 4096; IPv4/IPv6 source; requested CA key algorithm 0..5, 7, 100; further client claims in the message (declared OpenSSH version incl. those older than ECDSA / Ed25519 support, touch-to-SSH, touchless-sudo with firefighter / hosts / time, signature algorithm, extension map with attribute look-alikes) that must not reach the request; the registered key in '<login>.pub' or bare '<login>' - or only under near-miss file names (other letter case, doubled '.pub'), in which case nothing may be requested -, its line with or without authorized_keys options (restrict, no-pty, from=, command=, ...); handler configuration written as JSON and loaded by config.NewGensignConfig: validity 1 s..10 y (edges 1, 3599, 3600, 2^31, 315360000) and beyond 32 bits (2^32-1, 2^32, 2^32+600, 9999999999, 2^40, 2^53: the option is a 64-bit number) or omitted (default 12 h), key_identifiers keyed by algorithm name in random case, by default/unknown, or by number, with or without the requested algorithm, their values plain or containing shell / template metacharacters (${HOME}, $USER, $(id), %s, ~, {{.}}, spaces, non-ASCII); parameters built directly or through NewReqParam; honest agent, recording CA; each Case issues the request twice, each time on a fresh handler object which, in a third of the cases, has first generated a request for another login and CA key algorithm (that earlier request must be left untouched by the judged one). In a third of the cases the configuration file also holds sections of other handlers - 'Paranoids.Regular', 'PARANOIDS.REGULAR', 'paranoids.regular2', 'paranoids', ... - with another validity, directory and slot table. Oracle on the request seen by the CA: principals = [login name]; validity = configured; extensions = the five documented names with empty values; key slot = the one configured for the requested algorithm (reference resolution of names / numbers), none => HandlerConfErr and no CA call; public key parses, is not the registered key, differs between the two requests and equals the public half of the private key the agent received; KeyId decoded by the reference decoder and by keyid.Unmarshal: single principal = login name, transaction id / ip / declared user / host verbatim, version 1, all flags false, usage 0, never-touch. Non-trivial: declared user != login name, a metacharacter or non-ASCII value, or a non-default algorithm."
+const rule = "login name, client-declared user and host, transaction id with JSON metacharacters (quotes, backslash, an injection attempt, U+2028), non-ASCII, spaces, and long values of 61..5000 bytes around 64 / 128 / 256 / 4096; IPv4/IPv6 source; requested CA key algorithm 0..5, 7, 100; further client claims in the message (declared OpenSSH version incl. those older than ECDSA / Ed25519 support, touch-to-SSH, touchless-sudo with firefighter / hosts / time, signature algorithm, extension map with attribute look-alikes) that must not reach the request; the registered key in '<login>.pub' or bare '<login>' - or only under near-miss file names (other letter case, doubled '.pub'), in which case nothing may be requested -, its line with or without authorized_keys options (restrict, no-pty, from=, command=, ...); handler configuration written as JSON and loaded by config.NewGensignConfig: validity 1 s..10 y (edges 1, 3599, 3600, 2^31, 315360000) and beyond 32 bits (2^32-1, 2^32, 2^32+600, 9999999999, 2^40, 2^53: the option is a 64-bit number) or omitted (default 12 h), key_identifiers keyed by algorithm name in random case, by default/unknown, or by number, with or without the requested algorithm, their values plain or containing shell / template metacharacters (${HOME}, $USER, $(id), %s, ~, {{.}}, spaces, non-ASCII); parameters built directly or through NewReqParam; honest agent, recording CA; each Case issues the request twice, each time on a fresh handler object which, in a third of the cases, has first generated a request for another login and CA key algorithm (that earlier request must be left untouched by the judged one). In a third of the cases the configuration file also holds sections of other handlers - 'Paranoids.Regular', 'PARANOIDS.REGULAR', 'paranoids.regular2', 'paranoids', ... - with another validity, directory and slot table. In a third of the cases the signer edits every request object it is handed (drops and adds extensions, adds a principal, changes validity and KeyId) after recording a copy: later requests are judged like the first. Oracle on the request seen by the CA: principals = [login name]; validity = configured; extensions = the five documented names with empty values; key slot = the one configured for the requested algorithm (reference resolution of names / numbers), none => HandlerConfErr and no CA call; public key parses, is not the registered key, differs between the two requests and equals the public half of the private key the agent received; KeyId decoded by the reference decoder and by keyid.Unmarshal: single principal = login name, transaction id / ip / declared user / host verbatim, version 1, all flags false, usage 0, never-touch. Non-trivial: declared user != login name, a metacharacter or non-ASCII value, or a non-default algorithm."
 
 func TestC02Request(t *testing.T) {
 	vh.Run(t, vh.Spec[Case]{Property: "C02", Name: "TestC02Request", Rule: rule, Gen: gen, Exec: exec})
